@@ -90,6 +90,18 @@ CHECKS = {
              "outside the property).",
         technique="TLA+ spec (FmtText) + TLC exhaustive literals/argument lists, replay against format! in-process",
         design="4 (C02)"),
+    "C06": dict(
+        text="TLC model-checks DebugBuilder.tla: core's DebugTuple/DebugStruct/PadAdapter and derive_more's DebugTuple/Padded "
+             "as builder state machines (Begin, Field*, Finish|FinishNonExhaustive) over value kinds (one-line, multi-chunk "
+             "multi-line, nested tuple/struct) and formatter option classes; every reachable call sequence is replayed on "
+             "the real builders (one implementation test per transition; the std side validates the model of core); each "
+             "sequence is also materialised as twin types (std derive vs derive_more derive; skipped fields vs hand-written "
+             "finish_non_exhaustive builders) as tuple/named structs and variants with real field values, raw identifiers, "
+             "generics, empties and field-level attributes, compared byte for byte over a formatter-spec grid.",
+        note="formatter options are abstracted to (#, other) in the model and instantiated by a 12/25-spec grid; one recorded "
+             "finding (pretty tuple fields lose non-# options), filtered only where the text equals the transcription's.",
+        technique="TLA+ spec (DebugBuilder state machines) + TLC, replay of every call sequence on real builders, twin-type probes",
+        design="4 (C06)"),
 }
 
 NOT_YET = {}
